@@ -148,6 +148,13 @@ static RefBlock refParse(const std::string &raw, const bool request)
             name += ' '; // the obs-fold
         }
         if (l.crOnly && !l.folded) crOnlyStandalone = true;
+        if (l.crOnly && l.folded) {
+            // a CR-only line with continuation lines behind it: not a field, whatever the continuation holds
+            notAField = true;
+            f.name = "?";
+            b.fields.push_back(f);
+            continue;
+        }
         if ((!found || name.empty()) && !(l.crOnly && l.folded)) notAFieldOther = true;
         if (!found || name.empty()) {
             notAField = true;
